@@ -47,6 +47,9 @@ def run(ctx):
     cat, pre = unitcat.extract(ctx)
     for b in unitcat.check_prefixes(ctx, pre, "mag"):
         ctx.violation({"kind": "prefix", "prefix": b["prefix"]}, "the prefix %s does not scale by its SI / IEC factor (read out of %s<Meters>)" % (b["prefix"], b["prefix"][0].upper() + b["prefix"][1:]), detail=b)
+    for b in unitcat.check_base_dims(ctx, cat):
+        ctx.violation({"kind": "base units share a dimension", "unit": b["id"], "with": b["with"]},
+                      "the base unit %s %s: %s" % (b["id"], ("and " + b["with"]) if b["with"] else "", b["why"]), detail=b)
     for idx, names in unitcat.base_dim_collisions(ctx):
         ctx.violation({"kind": "base dimensions indistinguishable", "names": names},
                       "the distinct base dimensions %s share the index %d: products and quotients mixing them cancel, so units of different dimension become "
